@@ -235,6 +235,26 @@ def run(tier):
         if r.get("status") in ("crash", "terminate") or (r.get("status") == "open_error" and not r.get("err")) \
                 or r.get("err", "").startswith("@@"):
             vd.observe("api contract on open", {"observed": r})
+    # 6. nesting and length far beyond what anybody writes: every construct that nests, and every chain that
+    #    grows, at depths up to 30000 -- compiled or rejected, never a crash (recursion on the C stack: the
+    #    parser of every %( %), tree::simplify, build_exec, destructors).  On the plain build: the frames of the
+    #    instrumented one are several times larger, its stack ends earlier without that being a defect.
+    NEST = [("(", "1", ")"), ("[", "1", "]"), ("{", "1", "}"), ("?(", "1", ")"), ("!(", "1", ")"), ('"%( ', "1", ' %)"'),
+            ('"%( ', '"%s"', ' %)"'), ('"a %( [', "1", '] %)"'), ("if 1 then ", "1", " else 1"), ("(1, ", "1", ")"), ("(1 || ", "1", ")"),
+            ("let A := ", "1", ";"), ("(|A| ", "1", ")"), ("[|A| ", "1", "]"), ("{|A| ", "1", "}"), ("", "1", " 1 add"), ("", "1", "*"),
+            ("", "1", "+"), ("", "1", "?"), ("1 ", "", ""), ("", "1", ", 1"), ("", "1", " || 1"), ("(1 == ", "1", ")"), ("?{", "1", "}"),
+            ('"a"', "", '\\ "b"'), ("", "1", ' "%s"'), ("", '"', "%s"), ("", '"', "%( 1 %)"), ("{", "", "} apply"), ("let A := {", "1", "}; A")]
+    ncmds, nmeta = [], []
+    for (o, m, c) in NEST:
+        for n in ((64, 1024, 2048, 3300, 8192, 30000) if tier == "quick" else (64, 255, 256, 1024, 1900, 2048, 3300, 3400, 5000, 8192, 12000, 30000, 100000)):
+            txt = o * n + m + c * n + ('"' if m == '"' else "")
+            ncmds.append("\t".join(["parse", str(len(ncmds)), "t=120", zw.hexq(txt.encode())])); nmeta.append((o, m, c, n))
+    nby = {r.get("id"): r for r in zw.run_driver(os.path.join(plain, "bin", "zwdrv"), ncmds, wd, tag="nest", max_hangs=10**9)}
+    for i, (o, m, c, n) in enumerate(nmeta):
+        vd.cov["evaluations"] += 1
+        r = nby.get(str(i)) or {}
+        if r.get("status") not in ("accepted", "rejected") or "contract" in r:
+            vd.observe("deep nesting: `%s' x %d around `%s' closed by `%s' x %d: %s" % (o, n, m, c, n, r.get("status")), {"observed": r})
     vd.cov["traces_validated_against_impl"] = nontriv
     vd.sample({"tokens": vecs[len(vecs) // 2], "spelled": meta[len(vecs)][1].decode("utf-8", "replace")})
     vd.sample({"mutation": meta[-1][1].decode("utf-8", "backslashreplace")})
@@ -245,7 +265,7 @@ def run(tier):
                      "compared as model binding; (2) all single bytes, sampled byte pairs; (3) integer literals: %d "
                      "prefix x body combinations; (4) truncations at every length and random mutations (incl. NUL, high "
                      "bytes) of %d seed programs, accepted ones executed under a budget; (5) run-time failures at pull "
-                     "index 0..3, CLI stderr + status 2, file-open failures; non-trivial = strings whose accept/reject "
+                     "index 0..3, CLI stderr + status 2, file-open failures; (6) every nesting construct and every growing chain at depths 64 .. 30000 (100000 in the thorough tier): compiled or rejected, no crash; non-trivial = strings whose accept/reject "
                      "matches the grammar model" % (3 if tier == "quick" else 4, len(INT_PREFIXES) * len(INT_BODIES), len(seeds)))
 
 def replay(path):
